@@ -1,6 +1,7 @@
-/- Driver ops for JobShop.  Ops: job_shop.state, job_shop.step, job_shop.judge, job_shop.instance -/
+/- Driver ops for JobShop.  Ops: job_shop.state, job_shop.step, job_shop.judge, job_shop.instance, job_shop.bounds -/
 import JumanjiModel.Bridge.Json
 import JumanjiModel.Env.JobShop.Model
+import JumanjiModel.Env.JobShop.Bounds
 open Lean Jb
 
 namespace Jb.JobShop
@@ -99,7 +100,16 @@ def opInstance : Op := fun j => do
               ("initial_state", jBool (decide (s = initState cfg s.mid s.dur))),
               ("invariant", jBool (decide (Inv cfg s)))])
 
+def jBounds (t : Jm.OB.Table) : Json :=
+  jObj (t.map fun e => (e.1, jObj [("lo", match e.2.1 with | some r => jRat r | none => Json.null),
+                                   ("hi", match e.2.2 with | some r => jRat r | none => Json.null)]))
+
+/-- {"cfg": {J, M, O, D}} → {leaf path: {"lo": rat|null, "hi": rat|null}}: the proved observation bounds (C01) -/
+def opBounds : Op := fun j => do
+  let cfg ← getCfg (← field j "cfg")
+  pure (jBounds (obsBounds cfg))
+
 def ops : List (String × Op) :=
   [("job_shop.step", opStep), ("job_shop.state", opState), ("job_shop.judge", opJudge),
-   ("job_shop.instance", opInstance)]
+   ("job_shop.instance", opInstance), ("job_shop.bounds", opBounds)]
 end Jb.JobShop
